@@ -76,6 +76,13 @@ def gen_case(ctx):
         elif x < 0.8 and not join:
             items.append(('star',)); texts.append('*'); hitems.append('(4)')
             continue
+        elif x < 0.86 and join:
+            # b.* / * over the join table (also the one with a header and NO records, under LEFT JOIN: one empty cell per join column, D27)
+            if r.random() < 0.5:
+                items.append(('starb',)); texts.append('b.*'); hitems.append('(6)')
+            else:
+                items.append(('star',)); texts.append('*'); hitems.append('(4)')
+            continue
         elif x < 0.9 and join:
             e, t, h = ('fld', 'b', 1), 'b2', '(0 1 1)'
         else:
@@ -105,8 +112,13 @@ def gen_case(ctx):
     jq, jtxt = None, ''
     if join:
         k = r.randint(0, na - 1)
-        jq = {'kind': 'inner', 'spelling': 'join', 'lhs': [k], 'rhs': [0]}
-        jtxt = ' join b on %s == %s' % (name_of('a', k, hdr), name_of('b', 0, hdrB))      # keys by position or by name (also over zero-row tables)
+        # INNER or LEFT JOIN; 'hw': the join header's width - LEFT JOIN's all-None record has one field per join column name (fix c71773a,
+        # finding D27; Join.widen), which shows when the join table has a header and NO records
+        jkind, jsp = r.choice([('inner', 'join'), ('left', 'left join')])
+        if jkind == 'left' and r.random() < 0.4:
+            B = []
+        jq = {'kind': jkind, 'spelling': jsp, 'lhs': [k], 'rhs': [0], 'hw': len(hdrB)}
+        jtxt = ' %s b on %s == %s' % (jsp, name_of('a', k, hdr), name_of('b', 0, hdrB))      # keys by position or by name (also over zero-row tables)
     fail = r.random() < 0.08
     if fail:
         items.append(('expr', ('int', ('fld', 'a', 0)))); texts.append('int(a1 + "x")'); hitems.append('(7)')
